@@ -5,6 +5,7 @@ import ast
 from typing import Any, Dict, List, Optional, Set, Tuple
 
 from ..core import AnalysisError, Report
+from ..excflow import GuardFacts, dominating_guards
 from ..pyfacts import Repo, cc, cn, ancestors, calls, dotted, enclosing_func, norm, param_names, walk_no_nested
 
 PARSER = 'flipjump/assembler/fj_parser.py'
@@ -129,9 +130,22 @@ def rule_cache_key(rep: Report, repo: Repo) -> None:
     ok = all(('[cache_key]' in u or 'cache_key in _stl_prefix_cache' in u or u.startswith('_stl_prefix_cache[cache_key]')) for _, u in uses)
     rep.check(ok and len(uses) >= 3, 'C13.CACHE-KEY', 'cache accesses', str(uses), PARSER, expected='indexed/tested with cache_key only')
     pf = repo.func(PARSER, '_parse_files_into_parser')
-    key = [norm(s.value) for s in walk_no_nested(pf) if isinstance(s, ast.Assign) and norm(s.targets[0]) == 'cache_key']
-    rep.check(key == ['_stl_cache_key(input_files, prefix_length, memory_width, warning_as_errors) if prefix_length else None'], 'C13.CACHE-KEY', 'key construction',
-              str(key), f'{PARSER}:{pf.lineno}')
+    # every value cache_key can take: None, or the key built from all four inputs - the latter only when there is an stl prefix
+    key = []
+    for st in walk_no_nested(pf):
+        if isinstance(st, ast.Assign) and norm(st.targets[0]) == 'cache_key':
+            v = st.value
+            alts = [(v.body, norm(v.test)), (v.orelse, f'not ({norm(v.test)})')] if isinstance(v, ast.IfExp) else [(v, None)]
+            for e, cond in alts:
+                if cond is None:
+                    facts = GuardFacts(dominating_guards(st))
+                    cond = 'prefix_length' if facts.get('prefix_length') is True else ('not (prefix_length)' if facts.get('prefix_length') is False else '')
+                key.append((norm(e), cond))
+    want_key = '_stl_cache_key(input_files, prefix_length, memory_width, warning_as_errors)'
+    ok_key = (bool(key) and all(k in (want_key, 'None') for k, _ in key) and any(k == want_key for k, _ in key)
+              and all(c == 'prefix_length' for k, c in key if k == want_key))
+    rep.check(ok_key, 'C13.CACHE-KEY', 'key construction', str(key), f'{PARSER}:{pf.lineno}',
+              expected='the key of all four inputs when there is an stl prefix, None otherwise')
 
 
 def rule_cache_alias(rep: Report, repo: Repo) -> None:
